@@ -12,7 +12,7 @@ from ..monitors import V, View, mon_c02, mon_c03
 from ..spaces import prog_of, shard_iter
 
 ID = "C18"
-BUDGET = {"quick": 100, "thorough": 1800}
+BUDGET = {"quick": 100, "thorough": 600}
 
 
 def make_prog(n, es, with_param: bool) -> GProg:
@@ -28,9 +28,9 @@ def make_prog(n, es, with_param: bool) -> GProg:
 
 def cases(tier: str):
     q = tier == "quick"
-    for n in (1, 2, 3, 4):
+    for n in ((1, 2, 3, 4) if q else (1, 2, 3, 4, 5)):
         for es in shapes(n):
-            if n == 4 and q and len(es) > 3:
+            if (n == 4 and q and len(es) > 4) or (n == 5 and len(es) > 4):
                 continue
             for with_param in (False, True):
                 cachings = [("whole", None)] + [("target", t) for t in range(n)] + [("deps", t) for t in range(n)]
